@@ -290,6 +290,17 @@ func (c *ctxT) wdlHist(ops []string) {
 				x = "failed"
 			}
 			closeReturned = true
+		case op == "dp" || op == "df":
+			// a close deadline that has passed / is an hour ahead when the session is closed later:
+			// it bounds Serve's wait for the peer, not the write of the closing tag
+			when := time.Unix(1, 0)
+			if op == "df" {
+				when = time.Now().Add(time.Hour)
+			}
+			x = "ok"
+			if e := t.s.SetCloseDeadline(when); e != nil {
+				x = "failed"
+			}
 		case len(op) == 3 && op[0] == 't':
 			name, fate := op[:2], op[2]
 			ctx, cancel := context.WithCancel(context.Background())
@@ -611,8 +622,8 @@ func (c *ctxT) heldWriter(viaServe bool) {
 		wire: t.out.Bytes(), ids: map[string]int{"hw": 0}})
 }
 
-var wdlFull = []string{"c", "t1a", "t1x", "t2x", "t3x", "t4x", "t6x", "t1k", "t2k"}
-var wdlSmall = []string{"c", "t1a", "t1x", "t2x", "t1k"}
+var wdlFull = []string{"c", "t1a", "t1x", "t2x", "t3x", "t4x", "t6x", "t1k", "t2k", "dp", "df"}
+var wdlSmall = []string{"c", "t1a", "t1x", "t2x", "t1k", "dp"}
 var teeOps = []string{"c", "t1", "t2", "t3", "t4", "t5", "t6", "p"}
 var teeSmall = []string{"c", "t1", "t2", "p"}
 
@@ -669,7 +680,7 @@ func (c *ctxT) envCases() {
 		enumOver(wdlFull, n, c.wdlHist)
 	}
 	enumOver(pickS(r, wdlSmall, wdlFull), 3, c.wdlHist)
-	r.Exhaustive = append(r.Exhaustive, fmt.Sprintf("transport honouring write deadlines: all histories of length <= 2 over %v (length 3 over %v; thorough: all); a = context alive, x = over before the call, k = cancelled while the write is blocked", wdlFull, wdlSmall))
+	r.Exhaustive = append(r.Exhaustive, fmt.Sprintf("transport honouring write deadlines: all histories of length <= 2 over %v (length 3 over %v; thorough: all); a = context alive, x = over before the call, k = cancelled while the write is blocked; dp/df = SetCloseDeadline(far past / an hour ahead) before the session is closed", wdlFull, wdlSmall))
 	r.Mark("case held readers and writers")
 	for _, acq := range []string{"pre", "handler"} {
 		for _, end := range []string{"dp", "dz", "d"} {
